@@ -100,7 +100,7 @@ def ktab_obligations(which: int, quick_cap: float, quick_rd: str, templates=("ta
             continue
         t = db.get(f"h_ktab_gen.{fn}@{which}")
         secs = t["secs"] if t and t["verdict"] == "holds" else None
-        quick = secs is not None and secs <= quick_cap and rd == quick_rd
+        quick = secs is not None and secs <= quick_cap and (rd == quick_rd or op in ('insert_column', 'delete_column'))
         timeout = int(max(90, 4 * secs)) if secs is not None else 900
         out.append(Obl(
             name=fn, module="h_ktab_gen", func=fn, timeout=timeout, tier="quick" if quick else "thorough",
